@@ -37,7 +37,7 @@ LIM = {"absent": None, "zero": 0, "pos": 11}
 OFF = {"absent": None, "zero": 0, "pos": 7}
 SETTERS = ["limit_offset", "offset_limit", "slice", "getitem"]
 MSSQL_SETTERS = ["fetch_next_offset", "offset_fetch_next", "top", "top_limit"]
-POSITIONS = ["top", "from-subquery", "in-subquery", "set-operand", "set-operation", "join-subquery", "cte"]
+POSITIONS = ["top", "from-subquery", "in-subquery", "set-operand", "set-operation", "join-subquery", "cte", "insert-select-self", "select-into-self"]
 SURROUND = ["plain", "where", "groupby", "join", "nested-order-in", "window-order", "cte-ordered", "distinct"]
 
 
@@ -58,8 +58,13 @@ def cases(tier, seed, shard, nshards):
                                                "mode": mode, "sur": sur}
 
 
-def base_query(d, order, sur, reg, t):
-    q = reg[d].from_(t).select(t.id)
+def base_query(d, order, sur, reg, t, target=None):
+    q = reg[d].from_(t)
+    if target == "insert-select-self":  # INSERT INTO dst SELECT .. <row limit>: the feeding SELECT is the statement itself
+        q = q.into(reg["Table"]("dst"))
+    q = q.select(t.id)
+    if target == "select-into-self":    # SELECT .. INTO dst FROM .. <row limit>
+        q = q.into(reg["Table"]("dst"))
     if sur == "where":
         q = q.where(t.a > 1)
     elif sur == "groupby":
@@ -127,7 +132,7 @@ def paginate(q, setter, lim, off):
 def embed(pos, d, inner, reg, t, paginated_setop=None):
     """Outer statement holding `inner` at the position."""
     Q = reg[d]
-    if pos == "top":
+    if pos == "top" or pos.endswith("-self"):
         return inner
     # (every container carries a value of its own *after* the embedded query, so that the parameter list goes on behind the tail)
     if pos == "from-subquery":
@@ -338,7 +343,7 @@ def run_case(case, mon):
     t = reg["Table"]("t")
     if case["sur"] == "window-order" and pos in ("set-operation", "set-operand"):
         return  # (the window column would change the number of select items of one operand)
-    base = base_query(d, case["order"], case["sur"], reg, t)
+    base = base_query(d, case["order"], case["sur"], reg, t, target=pos if pos.endswith("-self") else None)
     if pos == "set-operation":
         # the ORDER BY under test is the set operation's own; with the "groupby" surrounding it is the *first operand* that is
         # ordered instead (inside its brackets), which must not count as an ordering of the set operation
